@@ -179,12 +179,13 @@ GetWriter2 ==
   /\ UNCHANGED <<cur, ri, after, used, acked, nextId, fault, nFaults, nCrash, nRestart, nObst, ref, refAct, rolls, res, hist>>
 
 \* encode + flush: the record reaches the file whole
+\* (a record that encodes to zero bytes leaves no trace in any file; it still goes through the triggers)
 Write ==
   /\ pc = "write"
-  /\ disk' = [disk EXCEPT !.act.d = Append(@, cur)]
+  /\ disk' = IF cur.sz = 0 THEN disk ELSE [disk EXCEPT !.act.d = Append(@, cur)]
   /\ writer' = [writer EXCEPT !.len = @ + cur.sz]
-  /\ W' = Append(W, cur)
-  /\ refAct' = Append(refAct, cur)
+  /\ W' = IF cur.sz = 0 THEN W ELSE Append(W, cur)
+  /\ refAct' = IF cur.sz = 0 THEN refAct ELSE Append(refAct, cur)
   /\ pc' = IF Pre THEN "ack" ELSE "posttrig"
   /\ UNCHANGED <<cur, ri, after, used, acked, nextId, fault, nFaults, nCrash, nRestart, nObst, ref, rolls, res, hist>>
 
